@@ -8,6 +8,7 @@ import (
 	"fmt"
 	"io"
 	"sort"
+	"sync"
 
 	"cuelabs.dev/go/oci/ociregistry"
 	"github.com/opencontainers/go-digest"
@@ -81,6 +82,7 @@ func observeErr(e ev, err error) {
 
 // world is a stack under test together with what the harness needs to drive and observe it.
 type world struct {
+	mu      sync.Mutex
 	cat     *Catalog
 	top     ociregistry.Interface
 	snapOf  ociregistry.Interface // registry whose state the snap events project (nil: none)
@@ -164,17 +166,44 @@ func (w *world) readFields(e ev, r ociregistry.BlobReader, wantSlice bool) {
 // the code under test is recorded as an event of its own (no specification has such an
 // action, so the trace is rejected there).
 func (w *world) step(ctx context.Context, op Op) {
-	e := opEvent(op)
 	w.opNo++
 	if w.setOp != nil {
 		w.setOp(w.opNo)
 	}
+	w.emit(w.exec(ctx, op))
+}
+
+// getWriter / setWriter guard the handle tables (concurrent drivers share them).
+func (w *world) getWriter(key string) ociregistry.BlobWriter {
+	w.mu.Lock()
+	defer w.mu.Unlock()
+	return w.writers[key]
+}
+
+func (w *world) setWriter(key, u, id string, bw ociregistry.BlobWriter) {
+	w.mu.Lock()
+	defer w.mu.Unlock()
+	if bw != nil {
+		w.writers[key] = bw
+	}
+	w.ids[u] = id
+}
+
+func (w *world) idOf(u string) (string, bool) {
+	w.mu.Lock()
+	defer w.mu.Unlock()
+	id, ok := w.ids[u]
+	return id, ok
+}
+
+// exec executes one op against the top of the stack and returns the event describing it.
+func (w *world) exec(ctx context.Context, op Op) (e ev) {
+	e = opEvent(op)
 	defer func() {
 		if p := recover(); p != nil {
 			e["op"] = "panic"
 			e["inop"] = op.Op
 			e["panic"] = fmt.Sprint(p)
-			w.emit(e)
 		}
 	}()
 	reg := w.top
@@ -217,12 +246,11 @@ func (w *world) step(ctx context.Context, op Op) {
 		bw, err := reg.PushBlobChunked(ctx, op.R, op.Chunk)
 		observeErr(e, err)
 		if err == nil {
-			w.writers[op.R+"|"+op.U] = bw
-			w.ids[op.U] = bw.ID()
+			w.setWriter(op.R+"|"+op.U, op.U, bw.ID(), bw)
 			e["chunksize"] = bw.ChunkSize()
 		}
 	case "Resume":
-		id, ok := w.ids[op.U]
+		id, ok := w.idOf(op.U)
 		if !ok {
 			if w.noFreshIDs {
 				// a session id only means something to the layer that issued it
@@ -234,12 +262,11 @@ func (w *world) step(ctx context.Context, op Op) {
 		bw, err := reg.PushBlobChunkedResume(ctx, op.R, id, int64(op.Off), op.Chunk)
 		observeErr(e, err)
 		if err == nil {
-			w.writers[op.R+"|"+op.U] = bw
-			w.ids[op.U] = id
+			w.setWriter(op.R+"|"+op.U, op.U, id, bw)
 			e["n"] = bw.Size()
 		}
 	case "Write":
-		bw := w.writers[op.R+"|"+op.U]
+		bw := w.getWriter(op.R + "|" + op.U)
 		if bw == nil {
 			e["op"] = "skip"
 			break
@@ -248,7 +275,7 @@ func (w *world) step(ctx context.Context, op Op) {
 		observeErr(e, err)
 		e["n"] = n
 	case "UpSize":
-		bw := w.writers[op.R+"|"+op.U]
+		bw := w.getWriter(op.R + "|" + op.U)
 		if bw == nil {
 			e["op"] = "skip"
 			break
@@ -256,22 +283,22 @@ func (w *world) step(ctx context.Context, op Op) {
 		observeErr(e, nil)
 		e["n"] = bw.Size()
 	case "Close":
-		bw := w.writers[op.R+"|"+op.U]
+		bw := w.getWriter(op.R + "|" + op.U)
 		if bw == nil {
 			e["op"] = "skip"
 			break
 		}
 		observeErr(e, bw.Close())
-		w.ids[op.U] = bw.ID()
+		w.setWriter(op.R+"|"+op.U, op.U, bw.ID(), nil)
 	case "Cancel":
-		bw := w.writers[op.R+"|"+op.U]
+		bw := w.getWriter(op.R + "|" + op.U)
 		if bw == nil {
 			e["op"] = "skip"
 			break
 		}
 		observeErr(e, bw.Cancel())
 	case "Commit":
-		bw := w.writers[op.R+"|"+op.U]
+		bw := w.getWriter(op.R + "|" + op.U)
 		if bw == nil {
 			e["op"] = "skip"
 			break
@@ -356,7 +383,7 @@ func (w *world) step(ctx context.Context, op Op) {
 	default:
 		panic("unknown op " + op.Op)
 	}
-	w.emit(e)
+	return e
 }
 
 // collect drains an iterator, counting how often the consumer was called, so that the
